@@ -694,7 +694,7 @@ func (runInfo *runInfoStruct) invokeImportExpr(expr *ast.ImportExpr) {
 	var err error
 	pack := runInfo.env.NewEnv()
 	for methodName, methodValue := range methods {
-		if methodValue.CanAddr() {
+		if methodValue.CanAddr() && methodValue.CanInterface() {
 			// an addressable entry (env.NilValue is one) is a cell shared by every import of the package:
 			// the importing environment gets its own
 			own := reflect.New(methodValue.Type()).Elem()
